@@ -296,14 +296,17 @@ TxRec(id, tx, insc, nonce, out) ==
 ChainIds == UNION {{chain[i].txs[j].id : j \in 1..Len(chain[i].txs)} : i \in 1..Len(chain)}
 CurIds   == {cur.txs[j].id : j \in 1..Len(cur.txs)}
 
-(* C19: what the Probe contract records of its execution context (slots 1..17, as the harness abstracts them) *)
+(* C19: what the Probe contract records of its execution context (slots 1..17, as the harness abstracts them); slot 18 counts the
+   executions of that Probe that are part of the state: every version of it is distinct, so a rollback that restores a wrong
+   version, or a transaction executed twice or not at all, shows in it (C01, C04, C08) *)
 BlockHashBack(k) == IF k <= NextH /\ k <= 256 /\ k >= 1 THEN "h:" \o Blk(NextH - k).hash ELSE "h:zero"
 PDefault(s) == IF s \in {3, 10, 11, 12, 13, 14} THEN "h:zero" ELSE IF s \in {7, 8, 9} THEN "a:zero" ELSE IF s = 17 THEN "x:zero" ELSE "n:0"
 PCell(w, a, s) == Get(w.pcells, <<a, s>>, PDefault(s))
+ProbeRuns(v) == CHOOSE k \in 0..400 : v = "n:" \o ToString(k)
 ProbeWrite(w, tx, hash, ts) ==
   LET a == tx.to
       prague == NextH >= PragueFrom
-      vals == [s \in 1..17 |->
+      vals == [s \in 1..18 |->
                  CASE s = 1 -> "n:" \o ToString(NextH)
                    [] s = 2 -> "n:" \o ToString(ts)
                    [] s = 3 -> "h:" \o hash
@@ -318,9 +321,10 @@ ProbeWrite(w, tx, hash, ts) ==
                    [] s = 14 -> BlockHashBack(257)
                    [] s = 15 -> "n:2"
                    [] s = 16 -> IF prague THEN "n:33" ELSE "n:1"
-                   [] s = 17 -> IF prague THEN "x:" \o tx.txid ELSE "x:zero"]
-  IN  [w EXCEPT !.pcells = [k \in (DOMAIN @) \cup {<<a, s>> : s \in 1..17} |->
-                               IF k[1] = a /\ k[2] \in 1..17 THEN vals[k[2]] ELSE @[k]]]
+                   [] s = 17 -> IF prague THEN "x:" \o tx.txid ELSE "x:zero"
+                   [] s = 18 -> "n:" \o ToString(ProbeRuns(PCell(w, a, 18)) + 1)]
+  IN  [w EXCEPT !.pcells = [k \in (DOMAIN @) \cup {<<a, s>> : s \in 1..18} |->
+                               IF k[1] = a /\ k[2] \in 1..18 THEN vals[k[2]] ELSE @[k]]]
 
 (* append one executed transaction to the block under construction *)
 Append1(c, w, id, tx, insc, hash, ts, out) ==
